@@ -420,6 +420,75 @@ theorem ip_proto_names_follower (tos id flags fragoff ttl proto : Nat) (src dst 
   | eapol _ _ => simp [wf] at hn
   | _ => simp [ipProtoOf, Layer.kind] at ht
 
+/-- **IPv6 next header names the follower** when there is no extension header (with extension headers the fixed header
+    names the first of them and the last one names the follower: `ip6Chain`, covered by correspondence + oracle). -/
+theorem ip6_next_header_names_follower (tc flow hop nh : Nat) (src dst : Bytes)
+    (n : Layer) (rest' : List Layer) (p : Option Layer) (t : Nat) (hn : wf n = true)
+    (ht : ipProtoOf n = some t) :
+    u8 (serialize (.ip6 tc flow hop nh src dst [] :: n :: rest') p) 6 = t := by
+  simp only [serialize, write, List.head?_cons]
+  simp only [w16, List.cons_append, List.nil_append, u8_cons_succ, u8_cons_zero, b8_toNat]
+  cases n with
+  | ip a b c d e f g h i =>
+    simp only [ipProtoOf, Layer.kind, Option.some.injEq] at ht; subst ht
+    rw [show flagToIp (.ip a b c d e f g h i) = 4 from rfl]; simp
+  | ip6 a b c d e f g =>
+    simp only [ipProtoOf, Layer.kind, Option.some.injEq] at ht; subst ht
+    rw [show flagToIp (.ip6 a b c d e f g) = 41 from rfl]; simp
+  | tcp a b c d e f g h =>
+    simp only [ipProtoOf, Layer.kind, Option.some.injEq] at ht; subst ht
+    rw [show flagToIp (.tcp a b c d e f g h) = 6 from rfl]; simp
+  | udp a b =>
+    simp only [ipProtoOf, Layer.kind, Option.some.injEq] at ht; subst ht
+    rw [show flagToIp (.udp a b) = 17 from rfl]; simp
+  | icmp a b c d e f g h i =>
+    simp only [ipProtoOf, Layer.kind, Option.some.injEq] at ht; subst ht
+    rw [show flagToIp (.icmp a b c d e f g h i) = 1 from rfl]; simp
+  | icmp6 a b c d e f =>
+    simp only [ipProtoOf, Layer.kind, Option.some.injEq] at ht; subst ht
+    rw [show flagToIp (.icmp6 a b c d e f) = 58 from rfl]; simp
+  | ah a b c d =>
+    simp only [ipProtoOf, Layer.kind, Option.some.injEq] at ht; subst ht
+    rw [show flagToIp (.ah a b c d) = 51 from rfl]; simp
+  | esp a b =>
+    simp only [ipProtoOf, Layer.kind, Option.some.injEq] at ht; subst ht
+    rw [show flagToIp (.esp a b) = 50 from rfl]; simp
+  | «opaque» _ _ _ => simp [wf] at hn
+  | llc _ _ => simp [wf] at hn
+  | radiotap _ => simp [wf] at hn
+  | eapol _ _ => simp [wf] at hn
+  | _ => simp [ipProtoOf, Layer.kind] at ht
+
+/-- **802.1Q tag names the follower** (an inner tag keeps 0x8100; PPPoE by its stage — fixed finding KF-C05-5). -/
+theorem dot1q_tag_names_follower (prio cfi id type : Nat) (padf : Bool) (n : Layer) (rest' : List Layer)
+    (p : Option Layer) (t : Nat) (hn : wf n = true) (ht : etherTypeInTag n = some t) :
+    be16At (serialize (.dot1q prio cfi id type padf :: n :: rest') p) 2 = t := by
+  simp only [serialize, write, List.head?_cons]
+  simp only [List.cons_append, List.nil_append, List.append_assoc]
+  rw [be16At_cons, be16At_cons, be16At_w16']
+  cases n with
+  | ip a b c d e f g h i =>
+    simp only [etherTypeInTag, etherTypeOf, Option.some.injEq] at ht; subst ht
+    rw [show pduToEther (.ip a b c d e f g h i) = 0x0800 from rfl]; simp [Tins.Gen.TagsC05.ethUNKNOWN]
+  | ip6 a b c d e f g =>
+    simp only [etherTypeInTag, etherTypeOf, Option.some.injEq] at ht; subst ht
+    rw [show pduToEther (.ip6 a b c d e f g) = 0x86DD from rfl]; simp [Tins.Gen.TagsC05.ethUNKNOWN]
+  | mpls a b c d =>
+    simp only [etherTypeInTag, etherTypeOf, Option.some.injEq] at ht; subst ht
+    rw [show pduToEther (.mpls a b c d) = 0x8847 from rfl]; simp [Tins.Gen.TagsC05.ethUNKNOWN]
+  | dot1q a b c d e =>
+    simp only [etherTypeInTag, Option.some.injEq] at ht; subst ht
+    rw [show pduToEther (.dot1q a b c d e) = 0x8100 from rfl]; simp [Tins.Gen.TagsC05.ethUNKNOWN]
+  | pppoe code a b c =>
+    simp only [etherTypeInTag, etherTypeOf, Option.some.injEq] at ht; subst ht
+    simp only [pduToEther]
+    by_cases hc : code = 0 <;> simp [hc, Tins.Gen.TagsC05.ethPPPOES, Tins.Gen.TagsC05.ethPPPOED, Tins.Gen.TagsC05.ethUNKNOWN]
+  | eapol _ _ => simp [wf] at hn
+  | «opaque» _ _ _ => simp [wf] at hn
+  | llc _ _ => simp [wf] at hn
+  | radiotap _ => simp [wf] at hn
+  | _ => simp [etherTypeInTag, etherTypeOf] at ht
+
 /-- the class → tag and tag → class tables of `pdu_helpers.cpp` are inverse to each other on every class that has a
     tag → class row (a finite table: the whole quantifier is checked) -/
 theorem ip_tag_roundtrip :
@@ -540,6 +609,51 @@ theorem udp_checksum_in_situ_ip6 (sp dp : Nat) (rest : List Layer)
   apply udp_checksum_verifies_ip6 src dst buf hs hd (by omega)
   · rw [← hb]; simp [w16]
   · rw [← hb]; simp [w16]
+
+/-- ICMP: the whole message of every serialised stack (inner packet, RFC 4884 padding, extension structure included)
+    verifies under RFC 792 -/
+theorem icmp_checksum_in_situ (type code id seq a b c : Nat) (lenflag : Bool) (exts : List (Nat × Nat × Bytes))
+    (rest : List Layer) (p : Option Layer)
+    (hwf : (Layer.icmp type code id seq a b c lenflag exts :: rest).all wf = true)
+    (hsz : size (Layer.icmp type code id seq a b c lenflag exts :: rest) ≤ 65535) :
+    verifies (serialize (.icmp type code id seq a b c lenflag exts :: rest) p) = true := by
+  have hl := serialize_length _ p hwf
+  simp only [serialize, write] at hl ⊢
+  rw [length_icmpTail] at hl
+  apply icmp_checksum_verifies _ (by omega)
+  · simp
+  · simp
+
+/-- TCP directly inside IPv6 (RFC 8200 pseudo header) -/
+theorem tcp_checksum_in_situ_ip6 (sp dp seq ack flags win urg : Nat) (opts : List (Nat × Bytes)) (rest : List Layer)
+    (tc flow hop nh : Nat) (src dst : Bytes) (ex : List (Nat × Bytes))
+    (hwf : (Layer.tcp sp dp seq ack flags win urg opts :: rest).all wf = true)
+    (hs : src.length = 16) (hd : dst.length = 16)
+    (hsz : size (Layer.tcp sp dp seq ack flags win urg opts :: rest) ≤ 65535) :
+    let out := serialize (.tcp sp dp seq ack flags win urg opts :: rest) (some (.ip6 tc flow hop nh src dst ex))
+    verifies (pseudo6 src dst 6 out.length ++ out) = true := by
+  intro out
+  have hl : out.length = size _ := serialize_length _ _ hwf
+  simp only [List.all_cons, Bool.and_eq_true] at hwf
+  have hin := serialize_length rest (some (.tcp sp dp seq ack flags win urg opts)) hwf.2
+  have hw := hwf.1; simp only [wf] at hw
+  have hpad := pad4_ge (tcpOptSize opts)
+  simp only [size, headerSize, trailerSize] at hl hsz
+  rw [hl]
+  show verifies (pseudo6 src dst 6 _ ++ write _ rest _ _) = true
+  simp only [write, parentOf, headerSize, trailerSize]
+  generalize hb : (w16 sp ++ w16 dp ++ w32 seq ++ w32 ack ++ [b8 ((20 + pad4 (tcpOptSize opts)) / 4 % 16 * 16 + flags / 256 % 16), b8 flags]
+      ++ w16 win ++ [0, 0] ++ w16 urg ++ writeTlvOpts opts ++ zeros (pad4 (tcpOptSize opts) - tcpOptSize opts)
+      ++ serialize rest (some (.tcp sp dp seq ack flags win urg opts))) = buf
+  have hbl : buf.length = 20 + pad4 (tcpOptSize opts) + size rest := by
+    rw [← hb]; simp [length_writeTlvOpts_tcp opts hw, hin]; omega
+  have e : 20 + pad4 (tcpOptSize opts) + (serialize rest (some (.tcp sp dp seq ack flags win urg opts))).length + 0
+      = buf.length := by omega
+  have e2 : 20 + pad4 (tcpOptSize opts) + size rest + 0 = buf.length := by omega
+  rw [e, e2]
+  apply tcp_checksum_verifies_ip6 src dst buf hs hd (by omega)
+  · rw [← hb]; simp [w16, w32]
+  · rw [← hb]; simp [w16, w32]
 
 /-! ### composition: the theorems above hold for a layer at any depth of any well-formed stack -/
 
